@@ -81,6 +81,9 @@ fn describe(b: u32, p: u32, c: &Ctor) -> String {
         Ctor::NcLookup { syms, probs, infer } => format!("cat.nclookup {:x} {:x} {} {} {}", b, p, show_list(syms.iter().map(|&s| s as u128)), show_list(probs.clone()), *infer as u8),
         Ctor::Uniform { range } => format!("cat.uniform {:x} {:x} {:x}", b, p, range),
         Ctor::Fast { kind, n, syms } => format!("cat.fast {} {:x} {:x} {:x} {}", kind, b, p, n, show_list(syms.iter().map(|&s| s as u128))),
+        Ctor::FromTable { target, table } => format!("cat.fromtable {} {:x} {:x} {}", target, b, p, show_triples(table)),
+        Ctor::AdvBorrow { kind, syms, first, later, infer } => format!("cat.adv.borrow {} {:x} {:x} {} {} {} {}", kind, b, p, show_list(syms.iter().map(|&s| s as u128)), show_list(first.clone()), show_list(later.clone()), *infer as u8),
+        Ctor::AdvHint { kind, syms, probs, infer, lo, hi } => format!("cat.adv.hint {} {:x} {:x} {} {} {} {:x} {}", kind, b, p, show_list(syms.iter().map(|&s| s as u128)), show_list(probs.clone()), *infer as u8, lo, hi.map(|h| format!("{:x}", h)).unwrap_or("-".into())),
     }
 }
 
@@ -866,6 +869,7 @@ pub fn oracle(rng: &mut Rng, tier: &str, rep: &mut Report) {
     oracle_matrix(rng, rep, thorough);
     oracle_from_iterable(rng, rep);
     oracle_aliases(rng, rep);
+    oracle_adversarial(rng, rep, thorough);
 
     // ---- non-usize symbol types ------------------------------------------------------------
     let to_i16 = |l: usize| (l as i64 - 3000) as i16;
